@@ -175,9 +175,7 @@ def init (cfg : Cfg) (k : Nat) : State :=
 def pcOf (s : State) (i : Nat) : Option Pc := (s.ws[i]?).map (·.pc)
 
 def setPc (s : State) (i : Nat) (pc : Pc) : State :=
-  match s.ws[i]? with
-  | some w => { s with ws := s.ws.set i { w with pc := pc } }
-  | none => s
+  { s with ws := s.ws.modify i (fun w => { w with pc := pc }) }
 
 def chanAt (s : State) (c : Nat) : Chan := (s.chans[c]?).getD { cap := 0, buf := 0, closed := false }
 
@@ -185,6 +183,11 @@ def chanAt (s : State) (c : Nat) : Chan := (s.chans[c]?).getD { cap := 0, buf :=
 def afterWake (cfg : Cfg) : Pc := if cfg.relockOnWake then .woken false else .doneNil
 /-- pc after the `<-ctx.Done()` arm fired -/
 def afterCtx (cfg : Cfg) : Pc := if cfg.relockOnErr then .woken true else .doneErr
+
+/-- effect of the context's end on the pc: a parked waiter takes the ctx arm at once -/
+def cancelPc (cfg : Cfg) : Pc → Pc
+  | .parked c => if cfg.waitCtx then afterCtx cfg else .parked c
+  | pc => pc
 
 def isParkedOn (c : Nat) (w : Waiter) : Bool := w.pc == .parked c
 
@@ -258,11 +261,7 @@ def step (cfg : Cfg) (s : State) : Label → Option State
     match s.ws[i]? with
     | some w =>
       if w.cancelled then none
-      else
-        let pc' := match w.pc with
-          | .parked _ => if cfg.waitCtx then afterCtx cfg else w.pc
-          | pc => pc
-        some { s with ws := s.ws.set i { pc := pc', cancelled := true } }
+      else some { s with ws := s.ws.modify i (fun w => { pc := cancelPc cfg w.pc, cancelled := true }) }
     | none => none
   | .relock i =>
     match pcOf s i, s.lock with
